@@ -16,12 +16,14 @@ package scen
 //  5. (driver) crash-capable race reports when run under -race
 
 import (
-	"reflect"
-	"hash/fnv"
+	"bytes"
 	"encoding/json"
 	"fmt"
+	"hash/fnv"
 	"math/rand"
 	"os"
+	"reflect"
+	"runtime"
 	"sort"
 	"strings"
 	"sync"
@@ -48,12 +50,12 @@ type lockMon struct {
 	sections map[string][]lockSection
 	openSec  map[string]int64 // "gid|lock" -> start
 	mu       sync.Mutex
-	held    map[int64][]string
-	waiting map[int64]string
-	owner   map[string]int64
-	edges   map[[2]string]map[string]bool // (A,B) -> intersection of other locks held at acquisition ("gates")
-	edgeG   map[[2]string]map[int64]bool   // goroutines that produced the edge
-	events  int64
+	held     map[int64][]string
+	waiting  map[int64]string
+	owner    map[string]int64
+	edges    map[[2]string]map[string]bool // (A,B) -> intersection of other locks held at acquisition ("gates")
+	edgeG    map[[2]string]map[int64]bool  // goroutines that produced the edge
+	events   int64
 }
 
 func newLockMon() *lockMon {
@@ -228,14 +230,14 @@ type c05Op struct {
 }
 
 type c05Case struct {
-	Clients  int     `json:"clients"`
-	Readers  int     `json:"readers"`
+	Clients  int       `json:"clients"`
+	Readers  int       `json:"readers"`
 	Ops      [][]c05Op `json:"ops"` // per client
-	Datasets []string `json:"datasets"`
-	Shared   []string `json:"shared,omitempty"` // datasets that several writers create at the same rendezvous
+	Datasets []string  `json:"datasets"`
+	Shared   []string  `json:"shared,omitempty"` // datasets that several writers create at the same rendezvous
 }
 
-const c05PairID = gen.NsA + "pair"  // written only by transactions, to both datasets, same tag
+const c05PairID = gen.NsA + "pair" // written only by transactions, to both datasets, same tag
 const c05TwinA = gen.NsA + "twinA" // always written together in one batch
 const c05TwinB = gen.NsA + "twinB"
 
@@ -268,6 +270,11 @@ func genC05Case(r *rand.Rand, clients, readers, opsPer int) c05Case {
 				var l []string
 				for j := 0; j < 10; j++ {
 					l = append(l, fmt.Sprintf("%sfresh-%d-%d", gen.NsA, i, j))
+				}
+				if cl == clients-1 {
+					// ... while one client sends batches that the store refuses (nil reference value) to another dataset
+					ops = append(ops, c05Op{Client: cl, Kind: "badbatch", DS: []string{c.Datasets[(cl+1)%3]}, IDs: []string{fmt.Sprintf("%srefused-%d", gen.NsA, i)}, Tag: tag, Sync: i})
+					continue
 				}
 				ops = append(ops, c05Op{Client: cl, Kind: "batch", DS: []string{c.Datasets[cl%3]}, IDs: l, Tag: tag, Sync: i})
 				continue
@@ -712,6 +719,24 @@ func c05Do(core *hub.Core, op c05Op, rec *c05Rec, visMu *sync.Mutex, vis *[]stri
 		if err := StoreBatch(core, op.DS[0], ents, false); err != nil {
 			rec.err = err.Error()
 		}
+	case "badbatch":
+		// several refused batches in a row, so that one of them overlaps the other writers' id assertions
+		ds := core.Dsm.GetDataset(op.DS[0])
+		for k := 0; k < 25 && ds != nil; k++ {
+			runtime.Gosched()
+			esp := server.NewEntityStreamParser(st)
+			var batch []*server.Entity
+			_ = esp.ParseStream(bytes.NewReader(gen.Payload([]model.Ent{c05Ent(fmt.Sprintf("%s-%d", op.IDs[0], k), op.Tag, 0)}, false)), func(e *server.Entity) error { batch = append(batch, e); return nil })
+			for _, e := range batch {
+				for r := range e.References {
+					e.References[r] = nil
+				}
+			}
+			if err := ds.StoreEntities(batch); err == nil {
+				addVis("a batch with a nil reference value was accepted")
+			}
+		}
+		rec.err = "refused on purpose"
 	case "txn":
 		t := map[string][]model.Ent{}
 		for _, d := range op.DS {
